@@ -17,6 +17,7 @@ import (
 	"github.com/Eyevinn/mp4ff/bits"
 	"github.com/Eyevinn/mp4ff/mp4"
 
+	"verifharness/ref/boxwalk"
 	"verifharness/ref/spsdim"
 	"verifharness/runner"
 )
@@ -24,16 +25,21 @@ import (
 func init() {
 	runner.Register(&runner.Prop{
 		ID: "C19",
-		Rule: "One case = one API history: CreateEmptyInit; 1..8 x AddEmptyTrack(timescale in {1,1000,48000,90000,2^32-1}, media type in the 16 accepted values " +
-			"(video audio subtitle subtitles stpp text wvtt meta clcp, custom 4-char hint/auxv/tmcd/abcd, raw handler names vide/soun/subt), language in 7 tags incl. 2-letter, BCP-47 and a 35-char tag); " +
-			"per track the matching Set{AVC,HEVC,AAC,AC3,EC3,Wvtt,Stpp}Descriptor with parameter sets from the independent serializer ref/spsdim (sizes, cropping, chroma format, bit depth, profile/level, scaling lists, sub-layers varied) " +
-			"or harvested from the repository's test streams; optionally a call that must be rejected first, unsupported media type probes, and a resume of the history on a decoded copy. " +
+		Rule: "One case = one API history: CreateEmptyInit; 1..8 x AddEmptyTrack(timescale in {1,1000,48000,90000,2^32-1}, media type in the 24 listed values " +
+			"(video audio subtitle subtitles stpp text wvtt meta clcp, custom 4-char handler types hint/auxv/tmcd/abcd and ID32/MPsm/m7sm/Ab1d/3gpp/s-1_/'a b '/TMCD, raw handler names vide/soun/subt) " +
+			"or a random custom four-character type over letters of both cases, digits and punctuation (never a case variant of a named type); language in 7 tags incl. 2-letter, BCP-47 and a 35-char tag); " +
+			"per track the matching Set{AVC,HEVC,AAC,AC3,EC3,Wvtt,Stpp}Descriptor with parameter sets from the independent serializer ref/spsdim (sizes, cropping, chroma format, bit depth, profile/level, scaling lists, sub-layers varied; " +
+			"about a third of the video tracks get a list of 2..4 SPS with different ids: a copy with another level and/or independently drawn SPS of other picture size/profile/level, HEVC with up to 3 VPS) " +
+			"or harvested from the repository's test streams (a third of those with the first SPS of a second stream appended); optionally a call that must be rejected first, unsupported media type probes, and a resume of the history on a decoded copy. " +
+			"Every init is encoded three ways that must agree byte for byte: Encode(io.Writer), EncodeSW into a fresh FixedSliceWriter, and EncodeSW into a caller-owned buffer pre-filled with 0xA5/0xFF/0x01/'x' (bits.NewFixedSliceWriterFromSlice, 16 bytes to spare). " +
 			"The first cases are a deterministic grid (media x language, AAC objType x frequency, AC-3/EC-3 fscod x acmod x lfe, every real parameter set x sample entry type x includePS, rejections, AVC profiles, 1..8 tracks); the rest are random. " +
 			"A case is non-trivial when the init was encoded, decoded by both DecodeFile and DecodeFileSR and a fragment for its track ids was read back; it is identified by the hash of the encoded init.",
 		Assumptions: []string{
 			"expected picture size = cropping formulas of ISO/IEC 14496-10 7.4.2.1.1 / ISO/IEC 23008-2 7.4.3.2.1 applied by ref/spsdim to the values it serialised (or, for harvested SPS, read with its own reader)",
 			"handler/media-header pairs: vide-vmhd, soun-smhd, subt-sthd, others nmhd (ISO/IEC 14496-12 8.4.5, 12.x; 14496-30 for wvtt/stpp)",
 			"language: a tag of three lower-case letters goes packed into mdhd, every other tag gives mdhd 'und' + elng with the tag (doc comment of CreateEmptyTrak)",
+			"several SPS in one Set{AVC,HEVC}Descriptor call: size, tkhd size and the profile/level/chroma/bit-depth fields of the configuration record must all be those of one supplied SPS (mp4ff: the first); which one is not fixed by the statement, so any single SPS accounting for all fields is accepted",
+			"a custom handler type is four bytes compared byte for byte with hdlr.handler_type (a four-character code is case sensitive, ISO/IEC 14496-12 4.2)",
 			"structural equality ignores StartPos and treats nil == empty; avcC chroma/bit-depth fields are ignored for profiles 66/77/88 where they have no serialised form",
 		},
 		Setup: func(env *runner.Env) error {
@@ -706,14 +712,19 @@ func (s *state) checkTrack(stage string, t *oTrack, e *expTrack) {
 	if t.entryDref < 1 || uint32(t.entryDref) > t.drefCount {
 		s.viol(stage, "data-reference-index", d.Kind, tr+fmt.Sprintf("%s sample entry has data_reference_index %d, dref has %d entr(y/ies) (index is 1-based)", wantType, t.entryDref, t.drefCount))
 	}
+	// Several SPS supplied: the sample entry's summary fields (size, tkhd size, profile/level,
+	// chroma format, bit depths) have to be those of ONE of them. mp4ff describes the first
+	// (SetAVCDescriptor, avc.CreateAVCDecConfRec and their HEVC twins all read spsNALUs[0]); the
+	// statement does not name which, so any single supplied SPS that accounts for all of the
+	// fields is accepted and the first one is the yardstick when none does.
+	in := s.describedSPS(t, d)
 	switch d.Kind {
 	case "avc", "hevc":
-		in := &d.Info
 		if uint32(t.w) != in.Width || uint32(t.h) != in.Height {
-			s.viol(stage, "sample-entry-size", dc, tr+fmt.Sprintf("%s %dx%d, SPS says %dx%d (coded %dx%d, cropped=%v, chroma_format_idc=%d, frame_mbs_only=%v)", wantType, t.w, t.h, in.Width, in.Height, in.CodedWidth, in.CodedHeight, in.Cropped, in.ChromaFormat, in.FrameMbsOnly))
+			s.viol(stage, "sample-entry-size", dc, tr+fmt.Sprintf("%s %dx%d, SPS says %dx%d (coded %dx%d, cropped=%v, chroma_format_idc=%d, frame_mbs_only=%v)%s", wantType, t.w, t.h, in.Width, in.Height, in.CodedWidth, in.CodedHeight, in.Cropped, in.ChromaFormat, in.FrameMbsOnly, spsListNote(d)))
 		}
 		if t.tkW != in.Width<<16 || t.tkH != in.Height<<16 {
-			s.viol(stage, "tkhd-size", dc, tr+fmt.Sprintf("tkhd %d.%04x x %d.%04x, SPS says %dx%d", t.tkW>>16, t.tkW&0xffff, t.tkH>>16, t.tkH&0xffff, in.Width, in.Height))
+			s.viol(stage, "tkhd-size", dc, tr+fmt.Sprintf("tkhd %d.%04x x %d.%04x, SPS says %dx%d%s", t.tkW>>16, t.tkW&0xffff, t.tkH>>16, t.tkH&0xffff, in.Width, in.Height, spsListNote(d)))
 		}
 	}
 	switch d.Kind {
@@ -723,7 +734,6 @@ func (s *state) checkTrack(stage string, t *oTrack, e *expTrack) {
 			s.viol(stage, "avcC-missing", dc, tr+"no avcC in the sample entry")
 			return
 		}
-		in := &d.Info
 		if a.version != 1 || a.profile != in.ProfileIDC || a.compat != in.ConstraintB || a.level != in.LevelIDC || a.lengthSizeMinusOne != 3 || !a.reservedOK {
 			s.viol(stage, "avcC-header", dc, tr+fmt.Sprintf("avcC version %d profile %d compat %#02x level %d lengthSizeMinusOne %d reservedOK=%v; SPS has profile %d compat %#02x level %d",
 				a.version, a.profile, a.compat, a.level, a.lengthSizeMinusOne, a.reservedOK, in.ProfileIDC, in.ConstraintB, in.LevelIDC))
@@ -754,7 +764,6 @@ func (s *state) checkTrack(stage string, t *oTrack, e *expTrack) {
 			s.viol(stage, "hvcC-missing", dc, tr+"no hvcC in the sample entry")
 			return
 		}
-		in := &d.Info
 		if h.version != 1 || h.profileSpace != in.ProfileSpace || h.tier != in.Tier || h.profileIDC != in.HProfileIDC || h.compat != in.CompatFlags ||
 			h.constraint != in.ConstraintInd || h.level != in.HLevelIDC || h.lengthSizeM1 != 3 {
 			s.viol(stage, "hvcC-profile-tier-level", dc, tr+fmt.Sprintf("hvcC version %d space %d tier %v profile %d compat %08x constraint %012x level %d lengthSizeMinusOne %d; SPS: space %d tier %v profile %d compat %08x constraint %012x level %d",
@@ -869,6 +878,121 @@ func (s *state) checkTrack(stage string, t *oTrack, e *expTrack) {
 			s.viol(stage, "stpp-strings", dc, tr+fmt.Sprintf("stpp strings %q, supplied (%q, %q, %q)", t.stpp, d.NS, d.Schema, d.Aux))
 		}
 	}
+}
+
+// summaryMatches tells whether every summary field the sample entry (and tkhd) carries equals
+// what the reference computed for one SPS.
+func summaryMatches(t *oTrack, kind string, in *spsdim.Info) bool {
+	if uint32(t.w) != in.Width || uint32(t.h) != in.Height || t.tkW != in.Width<<16 || t.tkH != in.Height<<16 {
+		return false
+	}
+	switch kind {
+	case "avc":
+		a := t.avc
+		if a == nil || a.profile != in.ProfileIDC || a.compat != in.ConstraintB || a.level != in.LevelIDC {
+			return false
+		}
+		if a.hasExt && (uint32(a.chroma) != in.ChromaFormat || uint32(a.depthLuma)+8 != in.BitDepthLuma || uint32(a.depthChroma)+8 != in.BitDepthChroma) {
+			return false
+		}
+	case "hevc":
+		h := t.hvc
+		if h == nil || h.profileSpace != in.ProfileSpace || h.tier != in.Tier || h.profileIDC != in.HProfileIDC || h.compat != in.CompatFlags ||
+			h.constraint != in.ConstraintInd || h.level != in.HLevelIDC {
+			return false
+		}
+		if uint32(h.chroma) != in.ChromaFormat || uint32(h.depthLumaM8)+8 != in.BitDepthLuma || uint32(h.depthChromaM8)+8 != in.BitDepthChroma {
+			return false
+		}
+	}
+	return true
+}
+
+// describedSPS: the supplied SPS the sample entry is judged against (see checkTrack).
+func (s *state) describedSPS(t *oTrack, d *descSpec) *spsdim.Info {
+	if d.Kind != "avc" && d.Kind != "hevc" {
+		return &d.Info
+	}
+	for i := range d.Infos {
+		if summaryMatches(t, d.Kind, &d.Infos[i]) {
+			if i > 0 {
+				s.c.Count("sample_entry_describes_a_later_sps", 1)
+			}
+			return &d.Infos[i]
+		}
+	}
+	return &d.Info
+}
+
+func spsListNote(d *descSpec) string {
+	if len(d.Infos) < 2 {
+		return ""
+	}
+	var l []string
+	for _, in := range d.Infos {
+		if d.Kind == "avc" {
+			l = append(l, fmt.Sprintf("%dx%d profile %d level %d", in.Width, in.Height, in.ProfileIDC, in.LevelIDC))
+		} else {
+			l = append(l, fmt.Sprintf("%dx%d profile %d level %d", in.Width, in.Height, in.HProfileIDC, in.HLevelIDC))
+		}
+	}
+	return fmt.Sprintf("; %d SPS were supplied [%s] and no single one of them accounts for size, tkhd size and the profile/level/chroma/bit-depth fields of the configuration record together (the first is shown)", len(l), strings.Join(l, "; "))
+}
+
+// spsListClass names the shape of a supplied SPS list for the evidence.
+func spsListClass(d *descSpec) string {
+	n := len(d.SPS)
+	if n < 2 {
+		return d.Kind + " 1 SPS"
+	}
+	if len(d.Infos) != n {
+		return fmt.Sprintf("%s %d SPS (only the first read by the reference)", d.Kind, n)
+	}
+	size, ptl := false, false
+	for _, in := range d.Infos[1:] {
+		f := &d.Infos[0]
+		size = size || in.Width != f.Width || in.Height != f.Height
+		ptl = ptl || in.ProfileIDC != f.ProfileIDC || in.LevelIDC != f.LevelIDC || in.HProfileIDC != f.HProfileIDC || in.HLevelIDC != f.HLevelIDC
+	}
+	return fmt.Sprintf("%s %d SPS size-differs=%v profile/level-differs=%v", d.Kind, n, size, ptl)
+}
+
+// mediaSeenClass keeps the evidence set small: listed media types by name, random custom
+// handler types by the character classes they contain.
+func mediaSeenClass(m string) string {
+	for _, x := range mediaTypes {
+		if x == m {
+			return m
+		}
+	}
+	for _, x := range unsupportedMedia {
+		if x == m {
+			return m
+		}
+	}
+	var lo, up, dg, ot bool
+	for i := 0; i < len(m); i++ {
+		switch c := m[i]; {
+		case c >= 'a' && c <= 'z':
+			lo = true
+		case c >= 'A' && c <= 'Z':
+			up = true
+		case c >= '0' && c <= '9':
+			dg = true
+		default:
+			ot = true
+		}
+	}
+	var l []string
+	for _, x := range []struct {
+		b bool
+		n string
+	}{{lo, "lower"}, {up, "upper"}, {dg, "digit"}, {ot, "other"}} {
+		if x.b {
+			l = append(l, x.n)
+		}
+	}
+	return "random custom 4CC [" + strings.Join(l, "+") + "]"
 }
 
 // ---------------------------------------------------------------------------
@@ -1030,6 +1154,11 @@ func (s *state) applyDesc(trak *mp4.TrakBox, d *descSpec, tr string) bool {
 	return true
 }
 
+// previous content of the caller-owned buffer EncodeSW is given, and its spare room
+var dirtyFills = []byte{0xA5, 0xFF, 0x01, 'x'}
+
+const dirtySlack = 16
+
 var idxRE = regexp.MustCompile(`\[\d+\]`)
 
 func (s *state) classes(exps []expTrack) string {
@@ -1055,23 +1184,58 @@ func (s *state) encodeInit(init *mp4.InitSegment, exps []expTrack, stage string)
 	var buf bytes.Buffer
 	var err, err2 error
 	var size uint64
-	var swBytes []byte
+	var swBytes, ownBytes []byte
+	var err3 error
+	fill := dirtyFills[c.Rand.Intn(len(dirtyFills))]
 	pi := c.Guard(func() {
 		size = init.Size()
 		err = init.Encode(&buf)
 		sw := bits.NewFixedSliceWriter(int(size))
 		err2 = init.EncodeSW(sw)
 		swBytes = sw.Bytes()
+		// EncodeSW into a buffer the caller owns and has used before (a recycled output buffer:
+		// NewFixedSliceWriterFromSlice does not clear it), with room to spare so that writing
+		// too much shows as length
+		own := make([]byte, int(size)+dirtySlack)
+		for i := range own {
+			own[i] = fill
+		}
+		sw2 := bits.NewFixedSliceWriterFromSlice(own)
+		err3 = init.EncodeSW(sw2)
+		if err3 == nil {
+			err3 = sw2.AccError()
+		}
+		ownBytes = sw2.Bytes()
 	})
 	if pi != nil {
 		s.viol(stage, "panic-encode", s.classes(exps), "InitSegment.Encode/EncodeSW panicked: "+pi.Value+" at "+pi.TopFrame)
 		return nil
 	}
-	if err != nil || err2 != nil {
-		s.viol(stage, "encode-error", s.classes(exps), fmt.Sprintf("Encode: %v; EncodeSW: %v", err, err2))
+	if err != nil || err2 != nil || err3 != nil {
+		s.viol(stage, "encode-error", s.classes(exps), fmt.Sprintf("Encode: %v; EncodeSW: %v; EncodeSW into a caller-owned buffer: %v", err, err2, err3))
 		return nil
 	}
 	b := buf.Bytes()
+	c.Count("encodesw_into_used_caller_buffer", 1)
+	c.Seen("caller_buffer_fill", fmt.Sprintf("%#02x", fill))
+	if !bytes.Equal(ownBytes, b) && uint64(len(b)) == size && bytes.Equal(b, swBytes) {
+		// same tree, same encoder, only the previous content of the buffer differs: name the box
+		// in which the first byte that was not (or wrongly) written lies
+		box, what := "length", fmt.Sprintf("%d bytes written instead of %d", len(ownBytes), len(b))
+		for i := 0; i < len(b) && i < len(ownBytes); i++ {
+			if ownBytes[i] != b[i] {
+				path := "?"
+				if nodes, werr := boxwalk.Walk(b); werr == nil {
+					if n := boxwalk.InnermostAt(nodes, i); n != nil {
+						box, path = n.Type, fmt.Sprintf("%s at offset %d of the box", n.Path(), i-n.Start)
+					}
+				}
+				what = fmt.Sprintf("first difference at byte %d (%s): %#02x instead of %#02x", i, path, ownBytes[i], b[i])
+				break
+			}
+		}
+		s.viol(stage, "encodesw-caller-buffer-differs", box, fmt.Sprintf("InitSegment.EncodeSW into a bits.NewFixedSliceWriterFromSlice buffer pre-filled with %#02x gives other bytes than Encode(io.Writer) for the same init: %s; the output of EncodeSW depends on what the buffer held before", fill, what))
+	}
 	if uint64(len(b)) != size || !bytes.Equal(b, swBytes) {
 		// attribute
 		cls := s.classes(exps)
@@ -1154,7 +1318,7 @@ func run(c *runner.Ctx, idx int) {
 			c.Count("resumed_histories", 1)
 		}
 		me, supported := expectMedia(t.Media)
-		c.Seen("media_type", t.Media)
+		c.Seen("media_type", mediaSeenClass(t.Media))
 		c.Seen("language", langClass(t.Lang))
 		c.Seen("timescale", fmt.Sprint(t.Timescale))
 		before := len(init.Moov.Traks)
@@ -1197,6 +1361,10 @@ func run(c *runner.Ctx, idx int) {
 		d := &t.Desc
 		if d.Kind == "avc" || d.Kind == "hevc" {
 			c.Seen("sps_source", map[bool]string{true: "generated", false: "repo-stream"}[d.Src == "generated"])
+			c.Seen("sps_list", spsListClass(d))
+			if d.Kind == "hevc" {
+				c.Seen("hevc_vps_count", fmt.Sprint(len(d.VPS)))
+			}
 			c.Seen("video_class", fmt.Sprintf("%s %s incl=%v chroma=%d depth=%d/%d cropped=%v", d.Kind, d.SDType, d.IncludePS, d.Info.ChromaFormat, d.Info.BitDepthLuma, d.Info.BitDepthChroma, d.Info.Cropped))
 			if d.Kind == "avc" {
 				c.Seen("avc_profile", fmt.Sprintf("%d frame_mbs_only=%v", d.Info.ProfileIDC, d.Info.FrameMbsOnly))
